@@ -26,6 +26,17 @@ static std::ostream &operator<<(std::ostream &os, both const &) { return os << "
 namespace trompeloeil {
 template <> struct printer<both> { static void print(std::ostream &os, both const &b) { os << "printer-both " << b.v; } };
 }
+struct nullcmp {       // comparable with nullptr AND streamable: prints nullptr when equal, operator<< otherwise (never both)
+  void *p;
+  friend bool operator==(std::nullptr_t, nullcmp n) { return !n.p; }
+  friend bool operator==(nullcmp n, std::nullptr_t) { return !n.p; }
+  friend std::ostream &operator<<(std::ostream &os, nullcmp const &) { return os << "nullcmp-streamed"; }
+};
+struct pseudonull {    // operator== with nullptr exists but does not yield a bool: not null-comparable, always streamed
+  friend void operator==(std::nullptr_t, pseudonull) {}
+  friend void operator==(pseudonull, std::nullptr_t) {}
+  friend std::ostream &operator<<(std::ostream &os, pseudonull const &) { return os << "pseudonull-streamed"; }
+};
 static char const *const NULLPTR = "nullptr";
 
 extern "C" void harness(void)
@@ -171,6 +182,28 @@ extern "C" void harness(void)
     int g3[2][1][2] = {{{x, y}}, {{z, z}}};
     trompeloeil::print(o3, g3);
     VASSERT(verif_stream_cnt(&o3, wopen) == 5 && verif_stream_cnt(&o3, wsep) == 3 && verif_stream_cnt(&o3, wclose) == 5, "C18.three_level_array_structure");
+  }
+  check_restore = false;
+#elif VF_T == 8        /* null-comparable user objects: nullptr iff equal to nullptr, else their operator<<; also nested */
+  bool isnull = (verif_nondet_uchar() & 1) != 0;
+  unsigned wnc = verif_watch_str("nullcmp-streamed"), wpn = verif_watch_str("pseudonull-streamed");
+  { nullcmp n{isnull ? nullptr : (void *)&x};
+    trompeloeil::print(os, n);
+    VASSERT(verif_stream_cnt(&os, wnull) == (isnull ? 1u : 0u), "C18.null_comparable_object_prints_nullptr_iff_null");
+    VASSERT(verif_stream_cnt(&os, wnc) == (isnull ? 0u : 1u), "C18.null_comparable_object_streamed_iff_not_null");
+#ifdef VERIF_NATIVE
+    std::snprintf(want, sizeof want, "%s", isnull ? "nullptr" : "nullcmp-streamed");
+#endif
+  }
+  { std::ostringstream o2; verif_stream_set(&o2, w0, f0, c0);
+    trompeloeil::print(o2, pseudonull{});
+    VASSERT(verif_stream_cnt(&o2, wnull) == 0 && verif_stream_cnt(&o2, wpn) == 1, "C18.non_bool_null_comparison_is_streamed");
+  }
+  { std::ostringstream o3; verif_stream_set(&o3, w0, f0, c0);
+    std::pair<nullcmp, int> pr{nullcmp{isnull ? nullptr : (void *)&y}, z};
+    trompeloeil::print(o3, pr);
+    VASSERT(verif_stream_cnt(&o3, wopen) == 1 && verif_stream_cnt(&o3, wsep) == 1 && verif_stream_cnt(&o3, wclose) == 1, "C18.pair_with_null_comparable_structure");
+    VASSERT(verif_stream_cnt(&o3, wnull) == (isnull ? 1u : 0u) && verif_stream_cnt(&o3, wnc) == (isnull ? 0u : 1u), "C18.null_comparable_at_depth");
   }
   check_restore = false;
 #elif VF_T == 6        /* printer<T> customisation point, also when operator<< exists */
